@@ -4,7 +4,7 @@
    F3e, F3g, F3c: the *_refuted theorems below give the witnesses); what holds
    is proved for every history that stays outside the trigger regions
    ([kf_op xs o = 0], a condition on the Python list and the operation only). *)
-From RV Require Import Collection.Model Collection.Proofs.
+From RV Require Import Collection.Model Collection.Proofs Collection.Reads.
 
 (* [Inv s xs]: the graph of state s is duplicate-free and its rdf:first/rdf:rest
    triples are exactly a chain HEAD -> ... -> rdf:nil carrying xs (no triple at
@@ -92,6 +92,45 @@ Print Assumptions C19_negative_index_refuted.
 Theorem C19_iadd_empty_refuted : exists c, refuted 4 c.
 Proof. exists {| c_init := []; c_noise := []; c_ops := [OIadd []] |}. repeat split; vm_compute; reflexivity. Qed.
 Print Assumptions C19_iadd_empty_refuted.
+
+(* ---- reads on arbitrary graphs: cyclic, broken, forked chains ---- *)
+
+(* Graph.items carries a visited set: iteration, len, membership and indexing
+   terminate on EVERY graph (the model never runs out of its length g + 3 units
+   of fuel; pigeonhole on the visited set) *)
+Theorem C19_reads_terminate : forall g head i v,
+  c_iter g head <> RHang /\ c_len g head <> RHang /\ c_contains g head v <> RHang /\ c_getitem g head i <> RHang.
+Proof.
+  intros. repeat split; [apply iter_total|apply len_total|apply contains_total|apply getitem_total].
+Qed.
+Print Assumptions C19_reads_terminate.
+
+(* on a chain whose walk (first rest link, stopping at a falsy node like
+   Graph.items) revisits a node, list(c) and len(c) raise ValueError *)
+Theorem C19_cyclic_reads_raise : forall g head, cyclic_iter g head = true ->
+  c_iter g head = RExc ValueError /\ c_len g head = RExc ValueError.
+Proof. exact cyclic_reads_raise. Qed.
+Print Assumptions C19_cyclic_reads_raise.
+
+(* index() terminates when the rest links from the head do not loop ... *)
+Theorem C19_index_terminates_partial : forall g head v,
+  cyclic_rest g head = false -> c_index g head v <> RHang.
+Proof. exact index_terminates. Qed.
+Print Assumptions C19_index_terminates_partial.
+
+(* ... and does not otherwise (F3c): on the chain (h first 1) (h rest h), index() of
+   an absent item exhausts every amount of fuel, while len(c) raises *)
+Theorem C19_index_cyclic_refuted :
+  (forall fuel idx, index_f fuel loop_graph HEAD 12%N idx = RHang) /\ cyclic_rest loop_graph HEAD = true /\ c_len loop_graph HEAD = RExc ValueError.
+Proof. split; [exact index_loops|split; vm_compute; reflexivity]. Qed.
+Print Assumptions C19_index_cyclic_refuted.
+
+(* what the `collreads` suite evaluates: no read hangs, and list(c)/len(c) raise
+   on a cyclic chain - for every graph and every sequence of reads without
+   index() on a looping chain *)
+Theorem C19_reads_spec_ok_model : forall c, r_wfb c = true -> r_kf c = 0%N -> r_spec c (r_model c) = true.
+Proof. exact r_spec_model. Qed.
+Print Assumptions C19_reads_spec_ok_model.
 
 (* non-vacuity: a trigger-free history over falsy members and duplicates that
    deletes the tail, a middle element and the only element, clears, appends
